@@ -184,3 +184,8 @@ package querylog
 
 // ---- C05: lock discipline (ghost lock state; every access to a guarded field in the package is an obligation) ----
 //@ guarded queryLog.buffer by bufferLock
+
+// The configuration-modified callback writes the configuration file and takes this package's configuration lock again
+// (home.onConfigModified -> config.write -> WriteDiskConfig): it must be invoked with no lock held.
+//@ package-callsite fieldcall:github.com/AdguardTeam/AdGuardHome/internal/querylog.Config.ConfigModified() requires nolocks()
+//@ sweep C05 fieldcall:github.com/AdguardTeam/AdGuardHome/internal/querylog.Config.ConfigModified
